@@ -9,7 +9,7 @@ EXTENDS Integers, Sequences, FiniteSets, TLC, Json
 
 ToSet(q) == {q[i] : i \in 1..Len(q)}
 
-\* o: [op, objs, first, repl, a0, b0, a1, b1, failed (set of replica names), res, code, missing, named (set)]
+\* o: [op, objs, first, repl, a0, b0, a1, b1, failed (set of replica names), directFailed, res, code, missing, named (set)]
 MirrorOK(o) ==
     LET S == o.objs
         either == o.a0 \cup o.b0
@@ -23,8 +23,11 @@ MirrorOK(o) ==
     /\ IF o.failed # {}
        THEN \* a replica failure is surfaced as an error: never NOT_FOUND, never success
             /\ o.res = "ERR" /\ o.code # "NotFound"
-            \* ... naming a replica (or the synchronisation that failed)
+            \* ... naming the replica that failed (or the repair / synchronisation step that failed)
             /\ o.named # {}
+            \* when a call of the operation itself failed on a replica (as opposed to a copy made to repair or
+            \* synchronise), that replica is among those named
+            /\ (o.directFailed # {} /\ o.named \cap {"repl", "sync"} = {}) => (o.named \cap o.directFailed # {})
        ELSE CASE o.op = "Get" ->
                    LET d == CHOOSE d \in S : TRUE IN
                    /\ (d \in either) => o.res = "Data"
